@@ -29,6 +29,9 @@ const (
 	vc03canceled
 	vc03wrappedDeadline
 	vc03excluded
+	vc03panicEOF
+	vc03panicCanceled
+	vc03panicSkip
 	vc03nKinds
 )
 
@@ -80,6 +83,16 @@ func VC03_Table() {
 		conf.ExcludedErrors = []error{vc03E1}
 		err = fmt.Errorf("ctx: %w", vc03E1)
 		never = true
+	case vc03panicEOF:
+		// a panic is reported whatever its value carries
+		err = ers.ParsePanic(fmt.Errorf("read: %w", io.EOF))
+		isPanic = true
+	case vc03panicCanceled:
+		err = ers.ParsePanic(context.Canceled)
+		isPanic = true
+	case vc03panicSkip:
+		err = ers.ParsePanic(ErrIteratorSkip)
+		isPanic = true
 	case vc03nKinds:
 		err = nil
 		never = true
@@ -136,7 +149,7 @@ func vc03setup(maxN int) (*vc03run, []OptionProvider[*WorkerGroupConf]) {
 	r.failAt = vf.Range("fail-at", 0, r.n) // == n: nobody fails
 	// the classification of every error shape is VC03_Table's job; the
 	// scenarios use one representative per class
-	r.kind = []int{0, 2, 4, 5, 7}[vf.Choice("kind", 5)]
+	r.kind = []int{0, 2, 4, 5, 7, 8, 9}[vf.Choice("kind", 7)]
 	cont := vf.Choice("continue", 2) == 1
 	r.contErr, r.contPan = cont, cont
 	r.calls = make([]int, r.n)
@@ -183,6 +196,12 @@ func (r *vc03run) user(id int) error {
 		err = io.EOF
 	case 6:
 		err = context.Canceled
+	case 8:
+		// an ordinary failure for the purpose of "never swallowed" (DESIGN 5.0)
+		err = fmt.Errorf("stage: %w", ers.ErrCurrentOpAbort)
+	case 9:
+		r.failRet = vf.Stamp()
+		panic(fmt.Errorf("read: %w", io.EOF))
 	}
 	r.failRet = vf.Stamp()
 	return err
@@ -190,11 +209,17 @@ func (r *vc03run) user(id int) error {
 
 func (r *vc03run) check(res error) {
 	failed := r.failAt < r.n
-	isPanic := r.kind == 2 || r.kind == 3
-	reportable := failed && (r.kind <= 3)
+	isPanic := r.kind == 2 || r.kind == 3 || r.kind == 9
+	reportable := failed && (r.kind <= 3 || r.kind == 8 || r.kind == 9)
 	vf.Assert((res != nil) == reportable, "result-nil-iff-no-reportable-failure")
 	if res != nil && reportable {
-		if r.kind != 3 {
+		switch r.kind {
+		case 3:
+		case 8:
+			vf.Assert(errors.Is(res, ers.ErrCurrentOpAbort), "errors-is-does-not-find-the-original-error")
+		case 9:
+			vf.Assert(errors.Is(res, io.EOF), "errors-is-does-not-find-the-original-error")
+		default:
 			vf.Assert(errors.Is(res, vc03E1), "errors-is-does-not-find-the-original-error")
 		}
 		if isPanic {
@@ -204,7 +229,7 @@ func (r *vc03run) check(res error) {
 	if res != nil {
 		vf.Assert(!errors.Is(res, vc03E2), "unrelated-error-reported")
 	}
-	continues := !failed || r.kind == 4 || (isPanic && r.contPan) || (!isPanic && r.kind <= 1 && r.contErr)
+	continues := !failed || r.kind == 4 || (isPanic && r.contPan) || (!isPanic && (r.kind <= 1 || r.kind == 8) && r.contErr)
 	if continues {
 		for id := 0; id < r.n; id++ {
 			vf.Assert(r.calls[id] == 1, "item-not-processed-exactly-once-although-nothing-aborted")
